@@ -57,7 +57,8 @@ int main(int argc, char **argv){
             std::string label; ls >> label; scen++; step = 0; skip_rest = false; deferred_begin = false; pending.clear();
             api = TasmanianSparseGrid(); unlink(gf.c_str());
             use_ascii = (scen % 2 == 0);
-            fprintf(out, "{\"e\":\"Reset\",\"scen\":%s}\n", jstr(label).c_str());
+            tok_salt = 0; ls >> tok_salt; if (tok_salt < 0 || tok_salt > 95) tok_salt = 0;
+            fprintf(out, "{\"e\":\"Reset\",\"scen\":%s,\"salt\":%d}\n", jstr(label).c_str(), tok_salt);
             continue;
         }
         if (skip_rest) continue;
